@@ -100,6 +100,12 @@ def replay (j : Json) : R Verdict := do
   let rounds ← asArr (← field j "rounds")
   if (fieldD j "hang").getBool?.toOption == some true then
     return { case, kind := "PROPFAIL", props := ["C04", "C15"], what := "controller neither returned nor yielded (hang); phase " ++ (fieldD j "phase").compress }
+  -- a report item whose seed is not that of a completed evaluation (the harness could not attribute it)
+  for rd in rounds do
+    for e in ((fieldD rd "events").getArr?.toOption.getD #[]) do
+      if !(fieldD (fieldD e "res") "unexpectedItem").isNull then
+        let w := s!"a detailed-report record carries seed {(fieldD e "seed").compress}, which is not the seed of an evaluation that completed ({(fieldD (fieldD e "res") "unexpectedItem").compress})"
+        return { case, kind := "PROPFAIL", props := ["C14"], what := w, fails := ["C14: " ++ w] }
   let mut r : RS := { st := (init cfg ss initV dflt (fun _ => ⟨false, dflt⟩)).1 }
   let mut roundNo := 0
   for rd in rounds do
